@@ -1,5 +1,6 @@
 import LlgoVerif.Util
 import LlgoVerif.Model.Sema
+import LlgoVerif.Model.AtomicValue
 /-! Line-protocol driver for C11 (semaphore + notify list under a schedule).
 
     `run <cfg> <val> <progs> <schedule>`
@@ -9,7 +10,12 @@ import LlgoVerif.Model.Sema
       <schedule> actions separated by `,`: `s<i>` | `s<i>><pick>` | `w<i>` ; `-` = empty
     answer: `<trace> # <end>` in the format of harness/c11 (one semaphore, one list):
       step = `<action>;<events>;S<val>/<waiters>:L<wait>/<notify>:T<status>.<parked at>.<ops done>,…`
-      end  = `done` | `stuck` | `cut` | `disabled@<k>` -/
+      end  = `done` | `stuck` | `cut` | `disabled@<k>`
+
+    `vrun <progs> <schedule>`   one `atomic.Value` (Model/AtomicValue.lean)
+      <progs>    operations `V:<v>` Store, `G` Load, `X:<v>` Swap, `Q:<old>:<new>` CompareAndSwap; <v> = a|b + cell 1..9, `n` = nil
+      <schedule> `s<i>` separated by `,`
+    answer: step = `<action>;<events>;T<status>.<parked at>.<ops done>,…:V<type word>/<data word>` -/
 open LlgoVerif LlgoVerif.Util LlgoVerif.Sema
 
 def parseOp : Char → Option Op
@@ -90,6 +96,85 @@ def runTrace (cfg : Cfg) (s : State) (acts : List String) : String := Id.run do
         k := k + 1
   return "|".intercalate out.toList ++ " # " ++ endOf st
 
+/-! ### atomic.Value -/
+namespace VDrv
+open LlgoVerif.AValue
+
+def parseVal (s : String) : Option (Option Val) :=
+  match s.toList with
+  | ['n'] => some none
+  | [t, d] =>
+    let τ := if t = 'a' then some 1 else if t = 'b' then some 2 else none
+    match τ, (String.singleton d).toNat? with
+    | some τ, some d => some (some (τ, d))
+    | _, _ => none
+  | _ => none
+
+def parseOp (s : String) : Option AValue.Op :=
+  match s.splitOn ":" with
+  | ["G"] => some .load
+  | ["V", v] => match parseVal v with | some (some v) => some (.store v) | _ => none
+  | ["X", v] => match parseVal v with | some (some v) => some (.swap v) | _ => none
+  | ["Q", o, n] => match parseVal o, parseVal n with | some o, some (some n) => some (.cas o n) | _, _ => none
+  | _ => none
+
+def parseProg (s : String) : Option (List AValue.Op) :=
+  if s = "-" || s = "" then some [] else (s.splitOn ".").mapM parseOp
+
+def showV : Option Val → String
+  | none => "n"
+  | some (τ, d) => (if τ = 1 then "a" else if τ = 2 then "b" else "?") ++ toString d
+
+def showTyp : TypW → String
+  | .nil => "n" | .inProgress => "p" | .real τ => if τ = 1 then "a" else if τ = 2 then "b" else "?"
+
+def showState (s : AValue.State) : String :=
+  let ths := s.threads.map fun t => s!"{if t.pc = .done then 'd' else 'r'}.{t.parkedAt}.{t.opsDone}"
+  s!"T{",".intercalate ths}:V{showTyp s.sh.typ}/{s.sh.data}"
+
+def kindOf : AValue.Pc → String
+  | .sLoad _ => "V" | .wLoad _ => "X" | _ => "Q"
+
+/-- the events of a step: the call that returned (if any) and the calls that panicked at once after it -/
+def eventsOf (before after : AValue.Thread) (ev : Option AValue.Event) : String :=
+  let main : List String := match ev with
+    | none => []
+    | some .stored => ["V0"]
+    | some (.loaded r) => ["G0=" ++ showV r]
+    | some (.swapped r) => ["X0=" ++ showV r]
+    | some (.casResult ok) => [if ok then "Q0=1" else "Q0=0"]
+    | some .panicked => ["!" ++ kindOf before.pc ++ "0"]
+  let extra := after.opsDone - before.opsDone - main.length
+  let all := main ++ List.replicate extra "!Q0"
+  if all.isEmpty then "-" else ",".intercalate all
+
+def endOf (s : AValue.State) : String :=
+  if s.threads.all (fun t => t.pc = .done) then "done" else "cut"
+
+def runTrace (s : AValue.State) (acts : List String) : String := Id.run do
+  let mut st := s
+  let mut out := #["init;-;" ++ showState s]
+  let mut k := 0
+  for a in acts do
+    let i? := match a.toList with
+      | 's' :: rest => (String.ofList rest).toNat?
+      | _ => none
+    match i? with
+    | none => return "|".intercalate out.toList ++ s!" # disabled@{k}"
+    | some i =>
+      match AValue.nextEv st i, st.threads[i]? with
+      | some (st', ev), some b =>
+        let evs := match st'.threads[i]? with
+          | some a' => eventsOf b a' ev
+          | none => "-"
+        out := out.push (a ++ ";" ++ evs ++ ";" ++ showState st')
+        st := st'
+        k := k + 1
+      | _, _ => return "|".intercalate out.toList ++ s!" # disabled@{k}"
+  return "|".intercalate out.toList ++ " # " ++ endOf st
+
+end VDrv
+
 def handle (line : String) : String :=
   match fields line with
   | ["run", c, v, progs, sched] =>
@@ -98,6 +183,12 @@ def handle (line : String) : String :=
       let acts := if sched = "-" then [] else sched.splitOn ","
       runTrace cfg (init v ps) acts
     | _, _, _ => "bad-op"
+  | ["vrun", progs, sched] =>
+    match (progs.splitOn ";").mapM VDrv.parseProg with
+    | some ps =>
+      let acts := if sched = "-" then [] else sched.splitOn ","
+      VDrv.runTrace (LlgoVerif.AValue.init ps) acts
+    | none => "bad-op"
   | _ => "bad-op"
 
 def main : IO Unit := lineLoop handle
